@@ -142,8 +142,11 @@ def run(ctx):
         lo, hi = -(1 << (w - 1)), (1 << (w - 1)) - 1
         bad = None
         for line in (1, 2, 300, 32767, 32768, 40000, 65535):
-            for off in sorted({lo - 2, lo - 1, lo, lo + 1, -2, -1, 0, 1, hi - 1, hi, hi + 1, hi + 2, 32766, 32767, -32768, -32767}):
-                ref = (line + 1 + off) % 65536
+            refs = {line + 1 + off for off in (lo - 2, lo - 1, lo, lo + 1, -2, -1, 0, 1, hi - 1, hi, hi + 1, hi + 2)}
+            # far pairs: distances that only "fit" if the 16-bit difference is allowed to wrap around
+            refs |= {1, 2, 15, 32767, 32768, 32769, 65520, 65535, (line + 1 + lo) % 65536, (line + 1 + hi) % 65536, (line + 32768) % 65536, (line + 32769) % 65536}
+            for ref in sorted(r for r in refs if 1 <= r <= 65535):
+                off = ref - line - 1
 
                 def subst(e, _l=line, _r=ref, _w=w):
                     if e[0] == "discr":
@@ -164,12 +167,10 @@ def run(ctx):
                     bad = (line, ref, off, "undecidable: %s" % ex)
                     break
                 got = formula.label_variant(lab) == "Ok"
-                # the distance seen by the helper is the wrapped 16-bit difference interpreted as signed
-                d = ((ref - line) % 65536)
-                d = d - 65536 if d >= 32768 else d
-                want = lo <= d - 1 <= hi
+                # the offset is the integer distance between the two statements: it must not be reduced modulo 2^16 first
+                want = lo <= off <= hi
                 if got != want:
-                    bad = (line, ref, d - 1, "guard %s, statement %s" % ("accepts" if got else "rejects", "accepts" if want else "rejects"))
+                    bad = (line, ref, off, "guard %s, statement %s" % ("accepts" if got else "rejects", "accepts" if want else "rejects"))
                     break
             if bad:
                 break
